@@ -11,6 +11,8 @@ From Coq Require Import String.
 From CR Require Import Model.Watcher.
 From CR Require Import Proofs.WatcherSpec.
 From CR Require Import Proofs.Watcher.
+(* behind the watch seam: one rtnetlink group, own namespace, no socket option (extracted) *)
+From CR Require Properties.SeamNetlink.
 From Coq Require Import List Lia.
 Import ListNotations.
 Local Open Scope nat_scope.
